@@ -129,6 +129,9 @@ func Do(c *sim.Cluster, a Action) error {
 	case "N":
 		return nil
 	}
+	if f, ok := CustomActions[a.K]; ok {
+		return f(c, a)
+	}
 	return fmt.Errorf("unknown action %v", a)
 }
 
@@ -149,3 +152,6 @@ func AutoJoin(c *sim.Cluster, asked map[int]int) {
 		}
 	}
 }
+
+// CustomActions lets checks add action kinds (executed as a cluster step).
+var CustomActions = map[string]func(c *sim.Cluster, a Action) error{}
